@@ -314,3 +314,61 @@ func VerifC12_RollingHookFault() {
 	rt.Assert(len(r.w.Srv.Revs()) == 1, "rolling-fault/old-revision-not-pruned-after-recovery")
 	rt.Cover("rolling-fault/completed")
 }
+
+// VerifC12_UnmergeableChild: one observed child cannot be merged with its
+// desired state (its last-applied record is not valid JSON, or the hook sends a
+// list where the child holds an object): that failure is reported, and the
+// siblings of the same kind are reconciled all the same - wherever the bad
+// child sits in the iteration order.
+func VerifC12_UnmergeableChild() {
+	w := env.NewWorld()
+	parent := env.Thing("ns", "p", "puid")
+	w.Srv.Put("things", parent)
+	val := rt.String("desired-value")
+	bad := verifAppliedChild(env.ConfigMap("ns", "a", "", "old"), parent, "uid-a")
+	env.SetLabel(bad, "controller-uid", "puid")
+	clash := rt.Bool("type-clash-instead-of-broken-record")
+	if !clash {
+		env.SetAnnotation(bad, verifLastApplied, "{not json")
+	}
+	sib := verifAppliedChild(env.ConfigMap("ns", "b", "", "old"), parent, "uid-b")
+	env.SetLabel(sib, "controller-uid", "puid")
+	w.Srv.Put("configmaps", bad)
+	w.Srv.Put("configmaps", sib)
+	desA := env.ConfigMap("ns", "a", "", val)
+	if clash {
+		desA.Object["data"] = []interface{}{"a list where the child has an object"}
+	}
+	// the bad child first, in the middle or last in the hook's answer
+	kids := []*unstructured.Unstructured{desA, env.ConfigMap("ns", "b", "", val), env.ConfigMap("ns", "c", "", val)}
+	switch rt.Choice("position-of-the-bad-child", 3) {
+	case 1:
+		kids[0], kids[1] = kids[1], kids[0]
+	case 2:
+		kids[0], kids[2] = kids[2], kids[0]
+	}
+	if rt.Bool("maps-reversed") {
+		rt.ReverseMaps(true)
+	}
+	pc := verifNewPC(w, verifPCConfig{
+		ParentRes: env.ThingRes, GenerateSelector: true,
+		Children: []verifChildRule{{Res: env.ConfigMapRes, Strategy: verifStrategyOf("InPlace")}},
+		Sync:     verifConstHook(kids, map[string]interface{}{"phase": "ok"}, false),
+	})
+	pc.SnapshotFromStore()
+	err := pc.syncParentObject(pc.W.Srv.All("things")[0])
+	rt.Assert(err != nil, "unmergeable/failure-not-reported")
+	b := w.Srv.Peek("configmaps", "ns", "b")
+	rt.Assert(b != nil, "unmergeable/sibling-vanished")
+	if b != nil {
+		d, _ := b.Object["data"].(map[string]interface{})
+		rt.Assert(d["k"] == val, "unmergeable/sibling-not-updated-because-another-child-failed")
+	}
+	rt.Assert(w.Srv.Peek("configmaps", "ns", "c") != nil, "unmergeable/sibling-not-created-because-another-child-failed")
+	a := w.Srv.Peek("configmaps", "ns", "a")
+	rt.Assert(a != nil && a.GetResourceVersion() == "7", "unmergeable/bad-child-written")
+	p := w.Srv.Peek("things", "ns", "p")
+	st, _ := p.Object["status"].(map[string]interface{})
+	rt.Assert(st["phase"] == "ok", "unmergeable/status-not-written-although-children-were-reconciled")
+	rt.Cover("unmergeable/done")
+}
